@@ -5,8 +5,9 @@ import (
 	"time"
 )
 
-// C16.seq: histories of a triggering event followed by local operations; in the complete wire trace nothing
-// (no data frame, no Ping/Pong, no second Close frame) follows the first Close frame.
+// C16.seq: histories of a triggering event followed by local operations; in the complete wire trace no data frame and
+// no second Close frame follows the first Close frame (Pings/Pongs may: the property and RFC 6455 5.5.1 do not rule them
+// out, and 5.5.2 requires a Ping received before the peer's Close frame to be answered).
 func verifC16_seq() {
 	client := vParam("client", 1) == 1
 	vInstallRand()
@@ -85,7 +86,7 @@ func verifC16_seq() {
 	seenClose := false
 	after := "none"
 	for _, f := range frames {
-		if seenClose && after == "none" {
+		if seenClose && (after == "none" || after == "ping-or-pong") {
 			switch {
 			case f.opcode == 8:
 				after = "second-close"
@@ -103,13 +104,15 @@ func verifC16_seq() {
 		vReach("C16.seq.close-sent")
 	}
 	vClassify("after", after)
-	vAssert(after == "none", "C16.seq.nothing-after-close")
+	// the property (and RFC 6455 5.5.1) rules out data frames and a second Close frame; a Pong answering a Ping that
+	// arrived before the peer's Close frame is legitimate (5.5.2)
+	vAssert(after == "none" || after == "ping-or-pong", "C16.seq.nothing-after-close")
 	c.CloseNow()
 	vObserve("c16", vWireSummary(t.out), seq)
 }
 
-// C16.guard: one step of writeFrame from any state in which a Close frame has already been handed to writeFrame: nothing
-// but (the one) Close frame may be emitted. Together with frame atomicity (C05.frame-atomic: frames are totally ordered
+// C16.guard: one step of writeFrame from any state in which a Close frame has already been handed to writeFrame: no data
+// frame and no second Close frame may be emitted. Together with frame atomicity (C05.frame-atomic: frames are totally ordered
 // by writeFrameMu) this is the statement that holds for every interleaving of writers, pingers and closers.
 func verifC16_guard() {
 	client := vParam("client", 1) == 1
@@ -124,8 +127,8 @@ func verifC16_guard() {
 	vReach("C16.guard.close-sent")
 	fin := vBool("fin")
 	fl := vBool("flate")
-	op := opcode(vU8("opcode") & 0x0f)
-	vAssume(op != opClose)
+	// a data frame of any kind (control frames other than Close are not restricted by the property)
+	op := []opcode{opContinuation, opText, opBinary}[vChoose("opcode", 3)]
 	// (whether the call fails at once or waits for its context is the implementation's choice: only the wire is asserted)
 	wctx, wcancel := context.WithTimeout(vBG, time.Second)
 	c.writeFrame(wctx, fin, fl, op, vBytes("p", vChoose("n", 4)))
@@ -195,8 +198,8 @@ func verifC16_sched() {
 	vAssert(ok, "C16.sched.wellformed")
 	seenClose, after := false, 0
 	for _, f := range frames {
-		if seenClose {
-			after++
+		if seenClose && (f.opcode <= 2 || f.opcode == 8) {
+			after++ // a data frame or a second Close frame
 		}
 		if f.opcode == 8 {
 			seenClose = true
